@@ -9,6 +9,7 @@ level_note="TBD",
 stages=[
     dict(name="small", harness="c16", oracle="C16", args=["-stage", "small"]),
     dict(name="date", harness="c16", oracle="C16", args=["-stage", "date"]),
+    dict(name="etag", harness="c16", oracle="C16", args=["-stage", "etag"]),
 ],
 rule="TBD",
 exhaustive=True,
